@@ -46,7 +46,7 @@ BOUND = {
     'thorough': 'same with every decade 1e-9..1e9 (19 values) + 0.37 per quantity (superset of the 8 magnitudes of DESIGN C01)',
 }
 REQUIRED_CLASSES = [
-    'double_ok', 'single_ok', 'out_of_domain_single', 'layout_0d', 'layout_1d', 'layout_bcast', 'layout_perpixel', 'layout_2d',
+    'history_f32_then_f64', 'history_f64_then_f32', 'double_ok', 'single_ok', 'out_of_domain_single', 'layout_0d', 'layout_1d', 'layout_bcast', 'layout_perpixel', 'layout_2d',
     'route_agree', 'roundtrip_ok', 'graph_bitwise', 'subgraph_bitwise', 'unit_angstrom', 'unit_meV', 'unit_inverse_wavelength',
 ]
 
@@ -82,7 +82,7 @@ SITE = {name: f'conversion.tof.{name}' for name in KERNEL_NAMES}
 
 def _si_magnitudes(kind, tier):
     """List of SI magnitudes (mpf) for a quantity kind."""
-    mags = MAG_DECADES if tier == 'thorough' else MAG_QUICK
+    mags = MAG_DECADES if tier == 'thorough' else ('1e-3', '0.37') if tier == 'history' else MAG_QUICK
     out = [hp.F(Fraction(m)) for m in mags]
     if kind == 'energy':
         out += [hp.F(Fraction('25.3')) * hp.MEV, hp.MEV, hp.EV]
@@ -167,6 +167,12 @@ def cases(tier):
                 for mode in ('f64', 'f32'):
                     out.append({'kind': 'subgraph', 'builder': builder, 'start': start, 'unit_set': uset, 'mode': mode})
     out.append({'kind': 'graph_table'})
+    # call-history dimension: the same kernel and units called in the other precision first (module state reset by
+    # reloading the kernel module), so a result that depends on an earlier call - e.g. a converted constant cached at the
+    # first caller's precision - is judged at its own precision bound.
+    for kernel in KERNEL_NAMES:
+        for units in _unit_choices(kernel):
+            out.append({'kind': 'history', 'kernel': kernel, 'units': units})
     return out
 
 
@@ -601,9 +607,23 @@ def _run_graph_table(case, rec):
         rec.viol('conversion.graph.tof.elastic', 'node_set', f'table wires elastic kernels under undocumented keys {sorted(real - mine)}')
 
 
+def _run_history(case, rec):
+    import importlib
+
+    nargs = len(kin.KERNELS[case['kernel']]['args'])
+    orders = [('f32', 'f64'), ('f64', 'f32')] + ([('f32data', 'f64')] if nargs > 1 else [])
+    for order in orders:
+        importlib.reload(K)  # fresh module-level state; function objects keep working (same module dict)
+        for mode in order:
+            _run_grid({'kind': 'grid', 'kernel': case['kernel'], 'units': case['units'], 'mode': mode, 'tier': 'history'}, rec)
+        rec.cls('history_' + '_then_'.join(order))
+
+
 def run_case(case, rec):
     kind = case['kind']
-    if kind == 'grid':
+    if kind == 'history':
+        _run_history(case, rec)
+    elif kind == 'grid':
         _run_grid(case, rec)
     elif kind == 'route':
         _run_route(case, rec)
